@@ -298,7 +298,13 @@ macro_rules! quaternion_complete_mod {
                 let (from, to) = (from.into(), to.into());
                 let norm_u_norm_v = (from.dot(from) * to.dot(to)).sqrt();
                 let w = norm_u_norm_v + from.dot(to);
-                let (Vec3 { x, y, z }, w) = if w < norm_u_norm_v * T::epsilon() {
+                // NOTE: For opposite vectors the two terms of `w` cancel, but each one carries its own
+                // rounding error of a few epsilons (relative to norm_u_norm_v), so the test needs slack:
+                // with a bare epsilon, exactly opposite vectors such as (817, 3053, 2711) and -5 times
+                // that (as f32) ended up in the general branch and yielded the identity.
+                let two = T::one() + T::one();
+                let eight = two * two * two;
+                let (Vec3 { x, y, z }, w) = if w < norm_u_norm_v * T::epsilon() * eight {
                     // If we are here, it is a 180° rotation, which we have to handle.
                     if from.x.abs() > from.z.abs() {
                         (Vec3::new(-from.y, from.x, T::zero()), T::zero())
